@@ -35,6 +35,10 @@ pub enum Sym {
     Disconnected,
     AdminShutdown,
     UpdateSent,
+    /// driver level only: an OPEN the decoder refuses (hold time 1): the session ends without the FSM being asked
+    OpenBadHold,
+    /// driver level only: a frame of an unknown type: header error, likewise
+    BadType,
 }
 
 pub const ALL_SYMS: [Sym; 12] = [
@@ -115,6 +119,8 @@ pub fn input_of(sym: Sym, remote_hold: u16, remote_id: u32) -> Input {
         Sym::Disconnected => Input::Disconnected,
         Sym::AdminShutdown => Input::AdminShutdown,
         Sym::UpdateSent => Input::UpdateSent,
+        // (not produced for the FSM-level sub-checks)
+        Sym::OpenBadHold | Sym::BadType => Input::Disconnected,
     }
 }
 
@@ -156,6 +162,8 @@ enum Down {
     Io,
     Admin,
     Collision,
+    /// refused by the decoder: NOTIFICATION (code, sub-code)
+    Decoder(u8, u8),
 }
 
 fn role_of(passive: bool) -> Role {
@@ -253,6 +261,14 @@ fn model_step(m: &mut [MState; 2], r: usize, sym: Sym, local_id_higher: bool) ->
             expect_down[r] = Some(Down::Admin);
         }
         (Sym::KeepaliveTimer | Sym::UpdateSent, _) => {}
+        (Sym::OpenBadHold, _) => {
+            m[r] = MState::Idle;
+            expect_down[r] = Some(Down::Decoder(2, 6));
+        }
+        (Sym::BadType, _) => {
+            m[r] = MState::Idle;
+            expect_down[r] = Some(Down::Decoder(1, 3));
+        }
     }
     Expect { down: expect_down, close: expect_close, established: expect_established }
 }
@@ -369,7 +385,7 @@ pub fn check(c: &Case) -> CheckResult {
                         Down::Remote => "RemoteNotification/none".into(),
                         Down::Io => "IoError/none".into(),
                         Down::Admin => "AdminShutdown/CeaseAdminShutdown".into(),
-                        Down::Collision => unreachable!(),
+                        Down::Collision | Down::Decoder(..) => unreachable!(),
                     };
                     if downs[i].len() != 1 || downs[i][0] != want {
                         return Err(Failure::new("fsm-down", ctx(&format!("session-down for {} connection is {:?}, expected [{want}]", if i == 1 { "passive" } else { "active" }, downs[i])))
@@ -492,7 +508,7 @@ for the same identifier pairs; every connection is a real loopback TCP connectio
 After every input (once the daemon has read it): the FSM state of both connection slots == reference model; a connection the model keeps is still open and was sent no NOTIFICATION; a connection the model tears down was closed by the daemon after the NOTIFICATION the statement names \
 (Cease/collision to the loser, FSM error with the RFC 6608 sub-code of the state, Bad Peer AS); a new connection gets an OPEN with the configured AS and identifier, an accepted OPEN a KEEPALIVE; a second connection in a role already taken is closed without disturbing the first. non-trivial := as above";
 
-const DRIVER_SYMS: [Sym; 7] = [Sym::Connected, Sym::OpenOk, Sym::OpenBadAs, Sym::Keepalive, Sym::Update, Sym::Notification, Sym::Disconnected];
+const DRIVER_SYMS: [Sym; 9] = [Sym::Connected, Sym::OpenOk, Sym::OpenBadAs, Sym::Keepalive, Sym::Update, Sym::Notification, Sym::Disconnected, Sym::OpenBadHold, Sym::BadType];
 
 const MARKER: [u8; 16] = [0xff; 16];
 
@@ -670,13 +686,22 @@ async fn drive(c: &Case) -> CheckResult {
                 let bytes = match sym {
                     Sym::OpenOk => wire_open(REMOTE_AS, remote_id),
                     Sym::OpenBadAs => wire_open(REMOTE_AS + 7, remote_id),
+                    Sym::OpenBadHold => {
+                        let mut b = wire_open(REMOTE_AS, remote_id);
+                        b[22] = 0;
+                        b[23] = 1; // hold time 1 second: unacceptable (RFC 4271 §4.2)
+                        b
+                    }
+                    Sym::BadType => [&MARKER[..], &[0, 19, 0x63]].concat(),
                     Sym::Keepalive => [&MARKER[..], &[0, 19, 4]].concat(),
                     Sym::Update => [&MARKER[..], &[0, 23, 2, 0, 0, 0, 0]].concat(),
                     _ => [&MARKER[..], &[0, 21, 3, 6, 4]].concat(),
                 };
                 if let Some(t) = taps[r].as_mut()
                     && t.client.write_all(&bytes).await.is_ok()
+                    && !matches!(sym, Sym::OpenBadHold | Sym::BadType)
                 {
+                    // (a frame the decoder refuses is not counted as received; its effect is the close)
                     wrote = true;
                     frames_written += 1;
                 }
@@ -739,6 +764,7 @@ async fn drive(c: &Case) -> CheckResult {
                         // RFC 6608: 1 = OpenSent, 2 = OpenConfirm, 3 = Established
                         Down::FsmError(code) => Some((5, *code)),
                         Down::BadPeerAs => Some((2, 2)),
+                        Down::Decoder(c, s) => Some((*c, *s)),
                         _ => None,
                     };
                     if !seen[i].closed {
@@ -794,6 +820,8 @@ fn arb_driver_sym() -> impl Strategy<Value = Sym> {
         2 => Just(Sym::Update),
         1 => Just(Sym::Notification),
         1 => Just(Sym::Disconnected),
+        1 => Just(Sym::OpenBadHold),
+        1 => Just(Sym::BadType),
     ]
 }
 
